@@ -15,7 +15,7 @@ import (
 )
 
 var c09Floor = []string{"key", "key.missing", "key.on-array", "key.quoted", "key.quoted.steplike", "key.quoted.plain", "fn.reregistered", "index", "index.multi", "each", "each.flatten", "keep", "range", "range.begin", "range.end",
-	"pipe", "pipe.string", "pipe.number", "pipe.on-array", "continue", "fn.mix", "fn.distinct", "fn.custom", "err.index-oob", "err.index-negative", "err.range-oob", "err.shape", "err.fn", "null.path", "readme.form", "continue.fn-after-null", "pipe.number.zero-padded", "pipe.string.fraction", "pipe.number.on-number", "range.bound-omitted"}
+	"pipe", "pipe.string", "pipe.number", "pipe.on-array", "continue", "fn.mix", "fn.distinct", "fn.custom", "err.index-oob", "err.index-negative", "err.range-oob", "err.shape", "err.fn", "null.path", "readme.form", "continue.fn-after-null", "pipe.number.zero-padded", "pipe.string.fraction", "pipe.number.on-number", "range.bound-omitted", "pipe.string.missing"}
 
 func init() {
 	genql.RegisterTopLevelFunction("vsize", func(v any) (any, error) {
@@ -38,12 +38,12 @@ func init() {
 		ID:    "C09",
 		Title: "Path selectors evaluate per the documented grammar and fail only with errors",
 		Level: "exploration",
-		Rule: "keys that differ in blanks only; ranges with a bound left out. a function behind a continuation that is NULL; zero-padded numeric strings, fractions and numbers under the reshape pipe. a share of the selectors quotes every key (or every other key); phase 'registry' (one process per case): a function registered under a built-in name is the one `fn=>` applies. phase 'bytes' evaluates every text twice (same error-ness, same value). object keys include texts that look like steps (`[0]`, `{id}`, `x::y`, `a|b`, `keep=>x` ...) and must be literal when quoted. phase 'grammar': each case = a random JSON-like document (objects/arrays nested to depth 5, ragged and multi-dimensional arrays, keys with dots and spaces) x a selector of 1..6 steps generated from the documented grammar by a type-directed walk over the document " +
+		Rule: "|string of a missing key (NULL). keys that differ in blanks only; ranges with a bound left out. a function behind a continuation that is NULL; zero-padded numeric strings, fractions and numbers under the reshape pipe. a share of the selectors quotes every key (or every other key); phase 'registry' (one process per case): a function registered under a built-in name is the one `fn=>` applies. phase 'bytes' evaluates every text twice (same error-ness, same value). object keys include texts that look like steps (`[0]`, `{id}`, `x::y`, `a|b`, `keep=>x` ...) and must be literal when quoted. phase 'grammar': each case = a random JSON-like document (objects/arrays nested to depth 5, ragged and multi-dimensional arrays, keys with dots and spaces) x a selector of 1..6 steps generated from the documented grammar by a type-directed walk over the document " +
 			"(keys, missing keys, keys mapped over arrays, [i], [i:j:..], each, keep=>, (m:n)/begin/end, {k|type,..}, quoted keys, ::, mix=> / distinct=> / a harness-registered function, and deliberately wrong shapes / out-of-range bounds), plus the README forms verbatim; " +
 			"ExecReader is called twice (cold and warm parse cache, second time on another copy) and must agree with the reference selector evaluator in value and in error-ness, never panic, and leave the document unchanged. " +
 			"Phase 'bytes': arbitrary byte strings and mutated selectors - totality only (no panic, document unchanged). Non-trivial = a successful evaluation with at least 2 steps whose value is not NULL, or an expected error; distinct = distinct (document, selector).",
 		Assumptions: []string{
-			"where the README is silent the generator stays out: non-keep index lists that would flatten into array leaves, a dimension after a range, |string on missing keys, negative indices, mix=> on objects, distinct over values that print alike (all reported as out-of-domain discards)",
+			"where the README is silent the generator stays out: non-keep index lists that would flatten into array leaves, a dimension after a range, negative indices, mix=> on objects, distinct over values that print alike (all reported as out-of-domain discards)",
 			"errors are compared as 'is an error', never by message; ranges are end-exclusive as the repository's own TestSelectDimension fixes it",
 		},
 		Floor:         c09Floor,
@@ -390,6 +390,10 @@ func c09Selector(c *fw.Case, doc map[string]any, force string, feats *[]string) 
 				sortFields(ps.Fields)
 				if c.Chance(0.2) {
 					ps.Fields = append(ps.Fields, ref.PipeField{Key: "missing"})
+				}
+				if force == "pipe.string.missing" || c.Chance(0.15) {
+					ps.Fields = append(ps.Fields, ref.PipeField{Key: "nokey2", Type: "string"})
+					feat("pipe.string.missing")
 				}
 				if wantErr && !errPlaced && c.Chance(0.3) {
 					ps.Fields[0].Type = "date"
